@@ -136,6 +136,16 @@ func tuple(resT types.Type, vs ...Val) Val {
 }
 
 func init() {
+	// --- context: the channel Done() returns belongs to package context (ctx_chan): it is never a channel that
+	// gostatsd code made (a receive on it is not a receive on one of gostatsd's own channels) -----------------
+	invokeModels["(context.Context).Done"] = func(fr *Frame, recv Val, args []Val, resT types.Type, st *State, reach string, pos token.Pos) Val {
+		c := fr.c
+		r := fr.havocVal(resT, "ctxdone")
+		c.smt.declareFun("ctx_chan", []string{"Int"}, "Bool")
+		c.smt.assume(or(eq(c.termOf(r), "0"), app("ctx_chan", c.termOf(r))), "ctx.Done(): nil or a channel owned by package context")
+		c.assumedExternal["(context.Context).Done (interface method, assumed not to touch gostatsd's heap; its channel is not one gostatsd made)"] = true
+		return r
+	}
 	// --- logrus: Panic* never returns; reaching it is a crash ------------------------------------
 	for _, n := range []string{"Panic", "Panicf", "Panicln", "Fatal", "Fatalf", "Fatalln"} {
 		name := "(github.com/sirupsen/logrus.FieldLogger)." + n
